@@ -189,7 +189,7 @@ func propC18(c *Check) {
 	okV := false
 	for _, s := range p.renderedStores(ex) {
 		if strings.HasSuffix(s.addr, "ExportedApp)#0.Validators") {
-			okV = s.val == "Keeper.ActiveValidators($0.LockingKeeper)#0" || strings.HasPrefix(s.val, "Keeper.ActiveValidators(")
+			okV = s.val == "Keeper.ActiveValidators($0.LockingKeeper)#0"
 			if !okV {
 				c.Violated("R3", "exported-validators @ "+FuncKey(ex), p.InstrPos(s.in), "validators exported from "+s.val)
 			}
